@@ -1,6 +1,6 @@
 (* C14G — property statements for the CFG-pass validator (only restatements + Print Assumptions + non-vacuity). *)
 From Coq Require Import ZArith NArith Bool List String Lia.
-From Verif Require Import C14G.CfgSem C14G.CfgCheck C14G.CfgSemProofs C14G.ChainProofs C14G.FlipProofs C14G.TailProofs C14G.SplitProofs.
+From Verif Require Import C14G.CfgSem C14G.CfgCheck C14G.CfgSemProofs C14G.ChainProofs C14G.FlipProofs C14G.TailProofs C14G.SplitProofs C14G.PhiProofs C14G.AsmCfg C14G.AsmCfgProofs.
 Import ListNotations.
 Open Scope string_scope.
 Open Scope list_scope.
@@ -36,6 +36,20 @@ Theorem jnz_iszero_polarity : forall lv c y t f,
 Proof.
   intros lv c y t f. unfold targets. simpl. unfold isz. destruct (oval lv c y =? 0)%Z; reflexivity.
 Qed.
+
+(* the sequential phis of CfgSem.v are the parallel phis of RangeFix.v / the back end on every function the validator is
+   applied to (phis_indep is evaluated together with cfg_check on every instance) *)
+Theorem phis_indep_parallel : forall M osem lv (f : func) b q c m mv,
+  phis_indep f = true ->
+  moves_of q (leading_phis (nth_block f b)) = Some mv -> NoDup (map fst mv) ->
+  exists c', steps M osem lv f (Run b 0 (Some q) c m) [] (Run b (List.length (leading_phis (nth_block f b))) (Some q) c' m) /\
+             (forall x, ~ In x (map fst mv) -> c' x = c x) /\ (forall o v, In (o, v) mv -> c' o = oval lv c v).
+Proof.
+  intros M osem lv f b q c m mv Hi Hm Hnd. apply phis_sequential_is_parallel; auto.
+  unfold phis_indep in Hi. rewrite forallb_forall in Hi. unfold nth_block.
+  destruct (nth_in_or_default (N.to_nat b) f []) as [H|H]; [now apply Hi | rewrite H; reflexivity].
+Qed.
+Print Assumptions phis_indep_parallel.
 
 (* ------------------------------------------------------------------ non-vacuity *)
 (* runtime: x = calldataload 0; jnz x @1 @2 / 1: jmp @3 / 2: z = add y 1; jmp @3 / 3: p = phi @1 y @2 z; mstore; stop
@@ -114,3 +128,48 @@ Definition ex_s_bad : func :=
    [mkI "assign" [OVar 0] [9%N]; mkI "jmp" [OLab 2] []]].
 Example ex_split_rejects : cfg_check ex_s ex_s_bad (CSplit [9%N]) = false.
 Proof. vm_compute. reflexivity. Qed.
+
+(* ------------------------------------------------------------------ code generation: control flow of the assembly *)
+(* Accepted (function, emitted assembly, block positions): from the index where the lowering of a block's terminator
+   starts, the pc machine's control steps (deterministic; they never touch the machine state: astep_ctl) lead exactly to
+   the start of the block the Venom terminator selects for the value on top of the stack — `jnz`: the first label iff
+   that value is non-zero — through absent jump-only blocks (res); a jump lands on a label item (JUMPDEST), a
+   fall-through lands exactly where the successor starts; every label operand of a `djmp` has a JUMPDEST that the
+   dynamic JUMP reaches when its address is on the stack. *)
+Theorem asm_cfg_check_sound : forall f asm cert, asm_cfg_check f asm cert = true ->
+  forall b s tb T, pos_of cert b = Some (s, tb) -> last_inst (nth_block f b) = Some T ->
+    (forall top st t, vsel T top = Some t ->
+       exists k sr, start_of cert (res f cert t) = Some sr /\
+         csteps asm k (tb, if String.eqb (i_op T) "jnz" then top :: st else st) = Some (sr, st)) /\
+    (i_op T = "djmp" -> forall t st, In t (labels_of (i_args T)) ->
+       exists sr, start_of cert (res f cert t) = Some sr /\ nth_error asm sr = Some (ALabel (res f cert t)) /\
+                  cstep asm (tb, Z.of_nat sr :: st) = Some (sr, st)).
+Proof. intros f asm cert H. exact (term_lands f asm cert H). Qed.
+Print Assumptions asm_cfg_check_sound.
+
+(* layout: the code of two blocks never overlaps (each block is emitted once), the label of a block occurs only where
+   the block starts (labels are unique), a block without code is a transparent jump-only block, the entry is present *)
+Theorem asm_layout_sound : forall f asm cert, asm_cfg_check f asm cert = true ->
+  (forall b b' s tb s' tb' e e', b <> b' -> pos_of cert b = Some (s, tb) -> pos_of cert b' = Some (s', tb') ->
+      block_end f asm cert b = Some e -> block_end f asm cert b' = Some e' -> (e <= s' \/ e' <= s)%nat) /\
+  (forall p l, nth_error asm p = Some (ALabel l) -> (N.to_nat l < List.length f)%nat -> start_of cert l = Some p) /\
+  (forall b, (N.to_nat b < List.length f)%nat -> pos_of cert b = None -> exists t, transparent f b = Some t) /\
+  pos_of cert 0 <> None.
+Proof. intros f asm cert H. exact (layout_sound f asm cert H). Qed.
+Print Assumptions asm_layout_sound.
+
+(* 0: c = calldataload; jnz c @1 @2   1: stop   2: revert — emitted as  L0 op PUSHLABEL 1 JUMPI | L2 REVERT | L1 STOP *)
+Definition ex_af : func :=
+  [[mkI "calldataload" [OLit 0] [0%N]; mkI "jnz" [OVar 0; OLab 1; OLab 2] []]; [mkI "stop" [] []]; [mkI "revert" [] []]].
+Definition ex_asm : list item :=
+  [ALabel 0; AOp "CALLDATALOAD"; APushLabel 1; AJumpi; ALabel 2; AOp "REVERT"; ALabel 1; AOp "STOP"].
+Definition ex_acert : list pos := [Some (0, 2); Some (6, 7); Some (4, 5)]%nat.
+Example ex_asm_accepts : asm_cfg_check ex_af ex_asm ex_acert = true.
+Proof. vm_compute. reflexivity. Qed.
+(* targets swapped at emission: rejected *)
+Definition ex_asm_bad : list item :=
+  [ALabel 0; AOp "CALLDATALOAD"; APushLabel 2; AJumpi; ALabel 1; AOp "STOP"; ALabel 2; AOp "REVERT"].
+Example ex_asm_rejects : asm_cfg_check ex_af ex_asm_bad [Some (0, 2); Some (4, 5); Some (6, 7)]%nat = false.
+Proof. vm_compute. reflexivity. Qed.
+Example ex_asm_run : csteps ex_asm 2 (2%nat, [5%Z]) = Some (6%nat, []) /\ csteps ex_asm 2 (2%nat, [0%Z]) = Some (4%nat, []).
+Proof. vm_compute. split; reflexivity. Qed.
